@@ -65,7 +65,9 @@ DEFAULT_OMEN = dict(ngram=2, alphabet=['a', 'b'], ip={'a': 0, 'b': 1},
                     cp={'aa': 0, 'ab': 1, 'ba': 0, 'bb': 2}, ep={'a': 0, 'b': 0}, ln=[10, 0, 1])
 
 
-def write_omen(d, omen, encoding='utf-8'):
+def write_omen(d, omen, encoding='utf-8', order=None):
+    """order: how the lines of IP / CP / EP.level are arranged - None (as given: grouped by context, as the trainer writes them),
+    'by_level' (sort -n), 'reversed'.  The format has no ordering rule; the meaning of the files is the set of their lines."""
     os.makedirs(d, exist_ok=True)
     with open(os.path.join(d, 'config.txt'), 'w') as f:
         f.write('[training_settings]\nngram = %d\nencoding = %s\n' % (omen['ngram'], encoding))
@@ -74,7 +76,12 @@ def write_omen(d, omen, encoding='utf-8'):
             f.write(a + '\n')
     for name in ('ip', 'cp', 'ep'):
         with open(os.path.join(d, name.upper() + '.level'), 'w', encoding=encoding) as f:
-            for k, lvl in omen[name].items():
+            items = list(omen[name].items())
+            if order == 'by_level':
+                items.sort(key=lambda kv: (kv[1], kv[0][::-1]))
+            elif order == 'reversed':
+                items.reverse()
+            for k, lvl in items:
                 f.write('%d\t%s\n' % (lvl, k))
     with open(os.path.join(d, 'LN.level'), 'w') as f:
         for lvl in omen['ln']:
